@@ -407,6 +407,16 @@ pub struct S12 {
 }
 observe_struct!(S12 { v, ov, e, me, sv, bv, ovr });
 
+#[derive(FromMeta)]
+pub struct S13 {
+    fl: darling::util::Flag,
+    pl: Option<darling::util::PathList>,
+    pl2: darling::util::PathList,
+    sb: Option<SpannedValue<bool>>,
+    p: Option<PM<1311>>,
+}
+observe_struct!(S13 { fl, pl, pl2, sb, p });
+
 // built-in and library conversions (judged for totality only)
 #[derive(FromMeta)]
 pub struct L1 {
@@ -509,7 +519,7 @@ pub fn run_meta_receiver(name: &str, entry: &MetaEntry, meta: &syn::Meta) -> Opt
         name,
         entry,
         meta,
-        [S1, S2, S3, S4, S5, S6, S7, S8, S9, S10, S11, S12, N1, N2, Rec, F1, F2, F3, F4, U1, NT1, NT2, W1, E1, E2, E3, EH, WR, MP, L1, L2, L3, RHS, RBS, RHI, RBI, RHP, RHN, RBN, RHH, RBH, RHB, RBB, RHU, RBU]
+        [S1, S2, S3, S4, S5, S6, S7, S8, S9, S10, S11, S12, S13, N1, N2, Rec, F1, F2, F3, F4, U1, NT1, NT2, W1, E1, E2, E3, EH, WR, MP, L1, L2, L3, RHS, RBS, RHI, RBI, RHP, RHN, RBN, RHH, RBH, RHB, RBB, RHU, RBU]
     )
 }
 
